@@ -5,7 +5,7 @@ from __future__ import annotations
 
 import random
 
-TOK_GRAM = {"n": "NAME", "1": "NUMBER", "+": "'+'", ",": "','", "k": "'k'"}
+TOK_GRAM = {"n": "NAME", "1": "NUMBER", "+": "'+'", ",": "','", "kk": "'kk'"}   # "k" is an ordinary name in the token strings
 
 
 def I(k, t="", r=0, x=None, s=None, alts=None):  # noqa: E743
@@ -262,6 +262,8 @@ def atom(it, names) -> str:
 
 
 def render_alt(a, names) -> str:
+    if a["tag"] == "@default":
+        return " ".join(render_item(it, names) for it in a["items"])
     parts, vs = [], []
     for it in a["items"]:
         if it["k"] in ("and", "not", "cut", "forced"):
@@ -293,12 +295,12 @@ def strip(g):
                 "alts": [{"items": [item(y) for y in a["items"]], "tag": a["tag"]} for a in it["alts"]]}
 
     rules = [{"memo": r["memo"], "leader": r["leader"], "lr": r.get("lr", False), "alts": [{"items": [item(y) for y in a["items"]], "tag": a["tag"]} for a in r["alts"]]} for r in g]
-    return {"rules": rules, "names": {"n"} if uses_kw(g) else {"n", "k"}}
+    return {"rules": rules, "names": {"n", "k"} if uses_kw(g) else {"n", "k", "kk"}}
 
 
 def uses_kw(g) -> bool:
     def has(it):
-        return (it["k"] == "tok" and it["t"] == "k") or any(has(x) for x in it["x"] + it["s"]) or any(has(y) for a in it["alts"] for y in a["items"])
+        return (it["k"] == "tok" and it["t"] == "kk") or any(has(x) for x in it["x"] + it["s"]) or any(has(y) for a in it["alts"] for y in a["items"])
 
     return any(has(it) for r in g for a in r["alts"] for it in a["items"])
 
@@ -326,7 +328,7 @@ def opt_of_lookahead(g) -> bool:
 # the family
 # ---------------------------------------------------------------------------------------------
 def fixed() -> list:
-    n, one, plus, comma, k = T("n"), T("1"), T("+"), T(","), T("k")
+    n, one, plus, comma, k = T("n"), T("1"), T("+"), T(","), T("kk")
     G = []
     G.append([Rl(A("a", n), A("b", one))])
     G.append([Rl(A("a", n, plus, n), A("b", n))])                                # ordered choice, backtracking
@@ -364,13 +366,22 @@ def fixed() -> list:
     G.append([Rl(A("a", R(1), plus, R(1)), A("b", n))])                                       # left and right recursion
     G.append([Rl(A("a", Not(n), Not(one), T("+")), A("b", And(n), n, And(one), one))])
     G.append([Rl(A("a", k, Opt(Group(A("g", n, CUT, one))), plus), A("b", k, n))])
+    # default actions: the item itself / the list of items, like-named items must stay distinct
+    D = "@default"
+    G.append([Rl(A(D, n, n, n), A(D, one))])
+    G.append([Rl(A(D, plus, comma, k), A(D, n, one, n, one))])
+    G.append([Rl(A(D, R(2), R(2), R(2)), A(D, k)), Rl(A(D, n), A("x", one))])
+    G.append([Rl(A(D, Star(n), one, Star(n)), A(D, Opt(plus), Opt(plus), comma))])
+    G.append([Rl(A(D, R(1), plus, n), A(D, n))])
+    G.append([Rl(A(D, Gather(comma, n), Gather(plus, n)), A("y", Plus(one), Plus(one), Plus(one)))])
+    G.append([Rl(A("a", Not(k), n), A("b", k))])                                  # exactly one keyword: NAME must still match its substrings
     return G
 
 
 def rand_item(rng, nrules, depth):
     """items with the nesting the real grammar uses: wrappers (optional, repetitions, gather, lookaheads, forced) apply to a
     token, a rule or a group; wrappers of wrappers are outside the enumerated family"""
-    toks = ["n", "1", "+", ",", "k"]
+    toks = ["n", "1", "+", ",", "kk"]
 
     def base(d):
         c = rng.random()
@@ -403,7 +414,7 @@ def rand_grammar(rng):
             items = [rand_item(rng, nrules, 2) for _ in range(rng.randrange(1, 4))]
             if rng.random() < 0.25:
                 items[0] = R(rng.randrange(1, nrules + 1))  # left recursion candidates
-            alts.append(A(f"a{i}{j}", *items))
+            alts.append(A("@default" if rng.random() < 0.15 and not any(x["k"] in ("and", "not", "cut", "forced") for x in items) else f"a{i}{j}", *items))
         g.append(Rl(*alts, memo=rng.random() < 0.3))
     return g
 
